@@ -124,6 +124,15 @@ func movesRun(cases []string, obs, oracle *common.Out) {
 				q := *p
 				q.MakeMove(m)
 				fmt.Fprintf(&sb, "%s#%x;", q.ToFen(), q.ZobristHash)
+				if legalPos {
+					// C03: every move the engine prints is accepted back with the same meaning
+					q2 := *p
+					if err := q2.MakeMoveFromString(m.String()); err != nil {
+						fail("C03", "printed move %s is rejected by MakeMoveFromString: %v", m.String(), err)
+					} else if q2 != q {
+						fail("C03", "printed move %s parses back to a different move (successor %s, expected %s)", m.String(), q2.ToFen(), q.ToFen())
+					}
+				}
 			}
 			sb.WriteString(" str:")
 			for _, m := range legal {
